@@ -449,7 +449,7 @@ class Tokenizer(object):
 # HACK: I couldn't get the parse() thing to work so I'm just not
 #       going to parse whitespace after EscapeSequences that end in
 #       non-letter characters as a half-assed solution.
-                        if token[-1] in encoding.stringletters():
+                        if next_code == CC_LETTER:
                             # Absorb following whitespace
                             self.state = STATE_S
 
